@@ -28,7 +28,7 @@ def r1(ctx):
     ana = ctx.ana
     owners = {"_point_labels": ana.prog.cls(MS), "_member_points": ana.prog.cls(CP)}
     n = 0
-    for fi in ana.prog.functions.values():
+    for fi in ana.own_functions():
         for x in Resolver.walk_own(fi.node):
             if isinstance(x, ast.Attribute) and isinstance(x.ctx, ast.Store) and x.attr in owners:
                 n += 1
@@ -162,7 +162,8 @@ def r2(ctx):
     sts = _no_store_condition_ok(ctx, mst, "_member_points", mst.params[1], "member_points")
     new = Sym(mst.params[1])
     for s in sts:
-        ok = s.value in (App("builtins.sorted", (new,)), tm.Lst([]))
+        # (a piecewise value is fine when every piece is: `[] if new is None else sorted(new)`)
+        ok = all(v_ in (App("builtins.sorted", (new,)), tm.Lst([])) for _g, v_ in tm.pieces_of(s.value))
         ctx.check(ok, mst, "the member list stored is sorted(new_members) (or [] for an empty assignment)", line=s.stmt.lineno,
                   role=f"member-setter:value@{sts.index(s)}", expected="sorted(new_members) | []", found=str(s.value))
 
